@@ -1,6 +1,7 @@
 package block
 
 import (
+	"context"
 	"errors"
 )
 
@@ -18,3 +19,15 @@ var (
 	// ErrHeightFromFutureStr is the error message for height from future returned by da
 	ErrHeightFromFutureStr = errors.New("given height is from the future")
 )
+
+// reportError hands an unrecoverable error of a background loop to the node's error channel.
+// The node reads at most one error and none at all once it is shutting down, so a loop must never
+// wait for a reader beyond a request to stop: a second loop failing during shutdown (for example
+// because the execution layer returned the cancellation) would otherwise block for ever and keep
+// the node from shutting down.
+func reportError(ctx context.Context, errCh chan<- error, err error) {
+	select {
+	case errCh <- err:
+	case <-ctx.Done():
+	}
+}
